@@ -5,8 +5,8 @@
    environments afterwards -- for ALL programs of the fragment at ALL nesting depths.
 
    Fragment: x = e, x op= e (+ - * / %), print, assert, expression statements, if / if-else / else-if chains,
-   while with break / continue, from-loops with a named non-colliding counter (bounds: lower any call-free
-   expression, upper a literal or a variable; step: none or a literal), over call-free expressions (ExprSim).
+   while with break / continue, from-loops with a named non-colliding counter (bounds and step: any call-free
+   expressions; the step may mention the counter), over call-free expressions (ExprSim).
 
    Relation Rst base pins env s a g (source fenv/rstate vs VM act/gstate):
      Rg_fr / Rg_bij   lookup-based, suffix-closed relation of scopes and frames (StmtRel.v), one-to-one on cells
@@ -15,6 +15,7 @@
      Rg_base          the frames below the activation are untouched
      Rg_un / Rg_ns    scopes bind user names only, no shadowing
      Rg_pins          pinned VM cells (end registers L#n of active from-loops) keep their value
+     Rg_nd            every frame binds a name at most once (a global invariant of the machine, StmtMach.xstep_nd)
      a_ops a = []     operand stack empty between statements;  |locals| <= S (a_ss a)  (special_scopes)
    Per statement (stmt_spec) / statement list (block_spec): `post` -- normal completion reaches the end of the code
    with related states; break / continue reach the loop's targets with the right number of block frames popped;
@@ -1797,8 +1798,262 @@ Section Sim.
     { eapply (agree_of pins env s g env1 s1 b B HG Hob); [exact Hb| |exact Es1|exact Ec1].
       intros y c0 Hy Hl0. rewrite El in Hl0. rewrite El1. cbn [lookup_scopes] in Hl0 |- *.
       rewrite assoc_set_other; [exact Hl0|]. intros ->. apply In_mem_str in Hy. congruence. }
-    Show.
-  Abort.
+    destruct (ok_expr_parts _ _ Hob) as (Hpb & _ & _).
+    destruct (eval_pure_congr b Hpb (S fuel) env s env1 s1 Hagb) as [Hst_b Eb1].
+    pose proof (expr_run pins b c (S fuel) (S k1) a2 g2 env1 s1 (x :: B) (ok_expr_weaken B x b Hob) HbL1 ltac:(lia) Hcb
+                  ltac:(fold lb; unfold fin, kd, kj, kp, ks, kb, kw, kc, k3 in *; lia) eq_refl eq_refl HG2S) as Heb.
+    rewrite Eb1 in Heb. fold lb in Heb.
+    destruct (eval (S fuel) env b s) as [vb sb|sb|f sb|]; cbn [res_to res_st] in Hst_b, Heb; [|contradiction| |exact Logic.I].
+    2:{ subst sb. destruct Heb as (_ & e0 & g' & Hf & Hr & Ho). rewrite Ero in Ho.
+        eapply post_expr_fail; [eapply xrun_fail; [exact R2|exact Hf]|exact Hr|exact Ho]. }
+    subst sb. destruct Heb as (_ & Hfob & g3 & R3 & HG3 & Hf3).
+    destruct va as [i0|?|?| |? ? ?]; try exact Logic.I.
+    destruct vb as [hi|?|?| |? ? ?]; try exact Logic.I.
+    cbv zeta. rewrite Edec.
+    set (a3 := upd a2 (S k1 + lb) [inj (RInt hi)]) in *.
+    (* store_fast L#n *)
+    set (i_se := mkI OP_STORE_FAST [endr]) in *.
+    set (g3t := trc name a3 g3 i_se).
+    assert (HG3t : Rg pins env1 s1 g3t) by (apply Rg_trc; exact HG3).
+    destruct (bind_reg_rel pins env1 s1 g3t endr (inj (RInt hi)) HG3t ltac:(intros Hu; exact (uname_not_lregn _ (S lr) Hu eq_refl)))
+      as (f3 & R & Ef3 & Hb3).
+    cbv zeta in Hb3. destruct Hb3 as [Hbind3 HG4].
+    set (ce := N.of_nat (length (cells g3t))) in *.
+    set (F2 := {| lab := lab f3; vars := assoc_set endr ce (vars f3) |}) in *.
+    match type of HG4 with Rg _ _ _ ?G => set (g4 := G) in * end.
+    set (a4 := upd a (S (S k1 + lb)) []).
+    assert (Hip4 : a_ip a4 = kc) by reflexivity.
+    assert (R4 : xrun name code a g a4 g4).
+    { eapply xrun_trans; [exact R2|]. eapply xrun_trans; [exact R3|].
+      eapply (xstep_next name code a3 g3 i_se _ k3 (set_ops a3 [])); [reflexivity|exact Hi3|apply dec_store_fast|].
+      apply (exec_store_fast endr a3 g3t (inj (RInt hi)) g4); [reflexivity|exact Hbind3]. }
+    (* ---- static facts about the loop-head frames F2 :: R and scopes lL *)
+    set (pins' := (ce, VInt hi) :: pins).
+    set (lL := assoc_set x cx sc0 :: l').
+    assert (Hxe : x <> endr) by (apply uname_not_lregn; exact Hx).
+    assert (Hxs0 : assoc x sc0 = None /\ lookup_scopes x l' = None).
+    { cbn [lookup_scopes] in Hxn. destruct (assoc x sc0); [discriminate|]. auto. }
+    destruct Hxs0 as [Hxs0 Hxl'].
+    assert (HR_tl : R = tl (frames g)).
+    { rewrite <- Hf1. change (frames g1) with (frames g1t). rewrite <- HtlS, <- Hf3.
+      change (frames g3) with (frames g3t). now rewrite Ef3. }
+    assert (Hx3 : exists cxv, assoc x (vars f3) = Some cxv).
+    { destruct (Rg_lookup env1 s1 g3t x HG3t Hx ltac:(apply HbL1; now left)) as (c1 & c1' & v1 & _ & E2 & _).
+      rewrite Ef3 in E2. cbn [find_in_function] in E2.
+      destruct (assoc x (vars f3)) as [cxv|]; [eexists; reflexivity|exfalso].
+      pose proof (Rg_fr _ _ _ HG3t) as Hfr. rewrite El1, Ef3 in Hfr. cbn [Rfr] in Hfr. destruct Hfr as [_ Hfr].
+      destruct l' as [|sc' l''].
+      - rewrite Hfr in E2. discriminate.
+      - destruct Hfr as [Hsp Hfr]. rewrite Hsp in E2.
+        pose proof (Rfr_look _ _ _ _ Hfr x Hx) as Hlk. rewrite Hxl', E2 in Hlk. exact Hlk. }
+    destruct Hx3 as [cx' Hax3].
+    assert (HaxF2 : assoc x (vars F2) = Some cx').
+    { unfold F2. cbn [vars]. rewrite assoc_set_other by exact Hxe. exact Hax3. }
+    assert (HaeF2 : assoc endr (vars F2) = Some ce) by (unfold F2; cbn [vars]; apply assoc_set_same).
+    assert (Ef4 : frames g4 = F2 :: R) by reflexivity.
+    assert (HndF2 : keys_nd (vars F2)).
+    { pose proof (Rg_nd _ _ _ HG4) as Hnd. rewrite Ef4 in Hnd. inversion Hnd; assumption. }
+    set (vs := assoc_del endr (assoc_del x (vars F2))).
+    assert (Hvs1 : forall y, uname y -> y <> x -> assoc y vs = assoc y (vars F2)).
+    { intros y Hy Hne. assert (y <> endr) by (apply uname_not_lregn; exact Hy).
+      unfold vs. now rewrite !assoc_del_other by assumption. }
+    assert (Hvs2 : assoc x vs = None).
+    { unfold vs. rewrite assoc_del_other by exact Hxe. now apply assoc_del_nd_none. }
+    assert (Hndvs : keys_nd vs) by (unfold vs; apply keys_nd_assoc_del; apply keys_nd_assoc_del; exact HndF2).
+    assert (Hdel0 : assoc_del x (assoc_set x cx sc0) = sc0) by (now apply assoc_del_set_absent).
+    (* ---- leaving the loop: delete the counter and the end register *)
+    assert (Hexit : forall a5 g5 env5 s5, locals env5 = lL -> Rg pins' env5 s5 g5 -> frames g5 = F2 :: R ->
+              a_ip a5 = kd -> a_ops a5 = [] -> length lL <= S (a_ss a5) ->
+              exists a6 g6, xrun name code a5 g5 a6 g6 /\ a_ip a6 = fin /\ Rst pins (undeclare env5 x) s5 a6 g6 /\
+                            act_same a5 a6 /\ tl (frames g6) = R /\ locals (undeclare env5 x) = sc0 :: l').
+    { intros a5 g5 env5 s5 El5 HG5 Ef5 Hip5 Hops5 Hss5.
+      set (i_d := mkI OP_DELETE_NAME_SCOPED [x; endr]) in *.
+      set (g5t := trc name a5 g5 i_d).
+      assert (Eu : locals (undeclare env5 x) = sc0 :: l') by (unfold undeclare; rewrite El5; cbn [locals lL]; now rewrite Hdel0).
+      exists (set_ip a5 (S (a_ip a5))), (with_frames g5t ({| lab := lab F2; vars := vs |} :: R)).
+      split; [|split; [|split; [|split; [|split]]]].
+      - eapply (xstep_next name code a5 g5 i_d _ kd a5); [exact Hip5|exact Hdel'|apply dec_delete2|].
+        exact (exec_delete2 x endr a5 g5t F2 R cx' ce Ef5 Hxe HaxF2 HaeF2).
+      - cbn [set_ip a_ip]. rewrite Hip5. reflexivity.
+      - split; [|split; [exact Hops5|]].
+        + eapply (undeclare_rel pins (ce, VInt hi) env5 s5 g5t x (assoc_set x cx sc0) l' F2 R vs);
+            [apply Rg_trc; exact HG5|exact El5|exact Ef5|exact Hx|exact Hvs1|exact Hvs2|now rewrite Hdel0|exact Hxl'|exact Hndvs].
+        + rewrite Eu. cbn [set_ip a_ss length lL] in *. exact Hss5.
+      - repeat split.
+      - reflexivity.
+      - exact Eu. }
+    assert (HbL : forall envL, locals envL = lL -> bound_in (x :: B) envL).
+    { intros envL ElL y. rewrite ElL. unfold lL. rewrite <- El1, (Hbx2 y), (Hb y). cbn [In]. split; intros [H|H]; auto. }
+    assert (HlxL : lookup_scopes x lL = Some cx) by (cbn [lL lookup_scopes]; now rewrite assoc_set_same).
+    assert (Hkd : kw + (lbd + ls + 3) = kd) by (unfold kd, kj, kp, ks, kb; lia).
+    assert (Hkj : kj = kc + (lbd + ls + 5)) by (unfold kj, kp, ks, kb, kw; lia).
+    destruct (ok_expr_parts _ _ Hst) as (Hpse & Hlse & Huse).
+    (* ---- the loop *)
+    assert (Hloop : forall n aL gL envL sL, locals envL = lL -> Rg pins' envL sL gL -> frames gL = F2 :: R ->
+              a_ip aL = kc -> length lL <= S (a_ss aL) ->
+              post pins sl bt ct fin B envL (frames g) aL gL
+                   (from_iter (S fuel) incl hi step x false body n envL sL)).
+    { induction n as [|n IH]; intros aL gL envL sL ElL HGL EfL HipL HssL; [exact Logic.I|].
+      rewrite from_iter_S. rewrite ElL, HlxL.
+      destruct (Rg_lookup envL sL gL x HGL Hx ltac:(rewrite ElL, HlxL; discriminate)) as (c0 & c0' & v & E1 & E2 & Hp & E3 & Hfo & E4).
+      rewrite ElL, HlxL in E1. inversion E1; subst c0. rewrite E3.
+      destruct v as [i|?|?| |? ? ?]; try exact Logic.I. cbn [inj] in E4.
+      assert (Fe : find_in_function endr (frames gL) = Some ce) by (rewrite EfL; cbn [find_in_function]; now rewrite HaeF2).
+      assert (Ce : cell_get gL ce = Some (VInt hi)).
+      { pose proof (Forall_inv (Rg_pins _ _ _ HGL)) as [Hc _]. exact Hc. }
+      destruct (from_cond_run kc x endr incl aL gL c0' ce i hi Hc1 Hc2 Hc3 HipL E2 E4 Fe Ce) as (gc & Rc & Efc & HRc).
+      set (bb := if incl then (i <=? hi)%Z else (i <? hi)%Z) in *.
+      set (ac := upd aL kw [VBool bb]) in *.
+      set (i_w := mkI OP_WHILE_LOOP [sN (lbd + ls + 3)]) in *.
+      set (gct := trc name ac gc i_w).
+      assert (HGct : Rg pins' envL sL gct) by (apply Rg_trc; apply HRc; exact HGL).
+      assert (Hdecw : decode i_w = DOk (DWhile (Z.of_nat (lbd + ls + 3)))) by (apply dec_while; apply small_code; unfold fin, kd, kj, kp, ks, kb in *; lia).
+      pose proof (exec_while_gen (Z.of_nat (lbd + ls + 3)) ac gct [] bb eq_refl) as Hxw.
+      assert (HneL : locals envL <> []) by (rewrite ElL; discriminate).
+      destruct bb.
+      2:{ (* the counter has passed the end: leave *)
+        set (a5 := set_ip (set_ops ac []) (kw + (lbd + ls + 3))).
+        assert (R5 : xrun name code aL gL a5 gct).
+        { eapply xrun_trans; [exact Rc|].
+          eapply (xstep_goto name code ac gc i_w _ kw _ (set_ops ac [])); [reflexivity|exact Hw'|exact Hdecw|exact Hxw|].
+          apply goto_fwd. cbn [set_ops a_ip ac upd set_ip]. unfold fin in *. lia. }
+        destruct (Hexit a5 gct envL sL ElL HGct ltac:(change (frames gct) with (frames gc); now rewrite Efc) ltac:(cbn; exact Hkd) eq_refl HssL)
+          as (a6 & g6 & R6 & Hip6 & HR6 & Ha6 & Hf6 & El6).
+        cbn [post]. split; [split; [rewrite El6, ElL; reflexivity|rewrite El6; discriminate]|].
+        split; [eapply bound_in_eq; [exact Hb|rewrite El6, El; reflexivity]|].
+        exists a6, g6. split; [eapply xrun_trans; eassumption|]. split; [exact Hip6|]. split; [exact HR6|].
+        split; [destruct Ha6 as (A1 & A2 & A3); repeat split; assumption|]. rewrite Hf6. exact HR_tl. }
+      (* one more iteration: push <while>, run the body *)
+      set (a0' := set_ss (upd aL kb []) (S (a_ss aL))).
+      set (g0 := push_frame gct LWhile).
+      assert (R0 : xrun name code aL gL a0' g0).
+      { eapply xrun_trans; [exact Rc|].
+        eapply (xstep_push name code ac gc i_w _ kw LWhile (set_ops ac [])); [reflexivity|exact Hw'|exact Hdecw|exact Hxw]. }
+      assert (HR0 : Rst pins' (push_scope envL) sL a0' g0).
+      { split; [apply push_rel; [exact HGct|reflexivity]|]. split; [reflexivity|].
+        unfold a0'. cbn [push_scope locals length set_ss a_ss upd set_ip set_ops]. rewrite ElL. cbn [length lL] in *. apply le_n_S. exact HssL. }
+      assert (HbL0 : bound_in (x :: B) (push_scope envL)).
+      { intros y. cbn [push_scope locals lookup_scopes assoc]. exact (HbL envL ElL y). }
+      assert (Hlc0 : lc_ok true (Some 1) kd ks (push_scope envL) (kb + length cb0)).
+      { split; [discriminate|]. intros m E. inversion E; subst m. cbn [push_scope locals length]. rewrite ElL.
+        fold lbd. fold ks. cbn [lL length]. unfold fin, kd, kj, kp in *. repeat split; lia. }
+      pose proof (Hbody pins' (S lr) true (Some 1) kd ks (S fuel) kb a0' g0 (push_scope envL) sL (x :: B) Hokb HbL0 Hib'
+                    ltac:(fold cb0; fold lbd; unfold fin, kd, kj, kp, ks in *; lia) Hlc0 eq_refl HR0) as H.
+      fold cb0 in H. fold lbd in H. fold ks in H. unfold in_block_.
+      destruct (exec_block (S fuel) (push_scope envL) body sL) as [sig env2 s2|f s2|]; [| |exact Logic.I].
+      2:{ cbn [post] in H |- *. eapply fail_post_map; [|exact H]. intros (e0 & g' & Hf & Hr & Ho). exists e0, g'.
+          split; [eapply xrun_fail; eassumption|]. auto. }
+      cbn [post] in H. destruct H as [[Htl2 Hne2] H]. cbn [push_scope locals tl] in Htl2. rewrite ElL in Htl2.
+      assert (Hlen2 : length (locals env2) = S (length lL)).
+      { destruct (locals env2) as [|sc2 l2]; [congruence|]. cbn [tl] in Htl2. subst l2. reflexivity. }
+      assert (Epop : locals (pop_scope env2) = lL) by exact Htl2.
+      (* after the body: the step, the back edge, the next iteration *)
+      assert (Hnext : forall aB gB, xrun name code a0' g0 aB gB -> a_ip aB = ks -> Rst pins' env2 s2 aB gB ->
+                act_same a0' aB -> tl (frames gB) = F2 :: R ->
+                post pins sl bt ct fin B envL (frames g) aL gL
+                  (match eval (S fuel) (pop_scope env2) se s2 with
+                   | EVal sv s0 =>
+                     match sget s0 cx, sv with
+                     | Some (RInt i'), RInt d =>
+                       if i32_ok (i' + d)%Z
+                       then from_iter (S fuel) incl hi step x false body n (pop_scope env2) (sset s0 cx (RInt (i' + d)%Z))
+                       else SFailed FOverflow s0
+                     | _, _ => SFailed (FType 13) s0 end
+                   | ENoVal s0 => SFailed (FType 3) s0 | EFail f s0 => SFailed f s0 | EFuel => SFuel end)).
+      { intros aB gB RB HipB (HGB & HopsB & HssB) HaB HfB.
+        assert (Hup : forall y c0, lookup_scopes y lL = Some c0 -> lookup_scopes y (locals env2) = Some c0).
+        { intros y c0 Hy. destruct (locals env2) as [|sc2 l2] eqn:E2l; [discriminate|]. cbn [tl] in Htl2. subst l2.
+          apply NS_lookup_tl; [|exact Hy]. rewrite <- E2l. exact (Rg_ns _ _ _ HGB). }
+        assert (Hlx2 : lookup_scopes x (locals env2) = Some cx) by (apply Hup; exact HlxL).
+        (* the step expression: the reference semantics evaluates it outside the loop scope; same result *)
+        assert (Huse2 : forall y, In y (used_e se) -> uname y /\ lookup_scopes y (locals env2) <> None).
+        { intros y Hy. destruct (Huse y Hy) as [Hun Hin]. split; [exact Hun|].
+          pose proof (proj2 (HbL envL ElL y) Hin) as Hbd. rewrite ElL in Hbd.
+          destruct (lookup_scopes y lL) as [c0|] eqn:Ey; [|congruence]. rewrite (Hup y c0 Ey). discriminate. }
+        assert (Hag : forall y, In y (used_e se) -> agree (pop_scope env2) s2 env2 s2 y).
+        { intros y Hy. destruct (Huse2 y Hy) as [Hun Hbd].
+          destruct (Rg_var_ok _ _ _ _ HGB Hun Hbd) as (_ & c0 & v0 & F1 & F2' & _).
+          rewrite (Rg_cap _ _ _ HGB), app_nil_r in F1.
+          destruct (Huse y Hy) as [_ Hin]. pose proof (proj2 (HbL envL ElL y) Hin) as Hbd0. rewrite ElL in Hbd0.
+          destruct (lookup_scopes y lL) as [c1|] eqn:Ey; [|congruence].
+          assert (c1 = c0) by (pose proof (Hup y c1 Ey) as H0; congruence). subst c1.
+          exists c0, c0, v0. cbn [pop_scope captured]. rewrite (Rg_cap _ _ _ HGB), !app_nil_r.
+          change (locals (pop_scope env2)) with (tl (locals env2)). rewrite Htl2. auto. }
+        destruct (eval_pure_congr se Hpse (S fuel) (pop_scope env2) s2 env2 s2 Hag) as [Hst_s Es].
+        pose proof (expr_run_gen pins' se c (S fuel) ks aB gB env2 s2 Hpse Hlse Huse2 ltac:(lia) Hcs'
+                      ltac:(fold ls; unfold fin, kd, kj, kp in *; lia) HipB HopsB HGB) as Hes.
+        rewrite Es in Hes. fold ls in Hes. fold kp in Hes.
+        destruct (eval (S fuel) (pop_scope env2) se s2) as [sv s0|s0|f s0|]; cbn [res_to res_st] in Hst_s, Hes;
+          [|contradiction| |exact Logic.I].
+        2:{ subst s0. destruct Hes as (_ & e0 & g' & Hf & Hr & Ho). cbn [post]. apply fail_post_intro. exists e0, g'.
+            split; [eapply xrun_fail; [exact R0|]; eapply xrun_fail; [exact RB|exact Hf]|]. split; [now apply err_rel_s_of|exact Ho]. }
+        subst s0. destruct Hes as (_ & Hfos & gE & RE & HGE & HfE).
+        set (aE := upd aB kp [inj sv]) in *.
+        destruct (Rg_lookup env2 s2 gE x HGE Hx ltac:(rewrite Hlx2; discriminate)) as (c2 & c2' & v2 & G1 & G2 & Hp2 & G3 & Hfo2 & G4).
+        rewrite Hlx2 in G1. inversion G1; subst c2. rewrite G3.
+        destruct v2 as [i'|?|?| |? ? ?]; try exact Logic.I.
+        destruct sv as [d|?|?| |? ? ?]; try exact Logic.I. cbn [inj] in G4.
+        pose proof (from_add_run kp x d aE gE c2' i' Hs2' eq_refl eq_refl G2 G4) as Hsr.
+        destruct (i32_ok (i' + d)%Z).
+        - destruct Hsr as (gS' & RS & EfS' & HRgS').
+          set (sS := sset s2 cx (RInt (i' + d)%Z)).
+          set (aS := upd aE (S kp) [VInt (i' + d)%Z]) in *.
+          set (gS := cell_set gS' c2' (VInt (i' + d)%Z)) in *.
+          assert (HGS : Rg pins' env2 sS gS).
+          { apply (update_rel env2 s2 gS' cx c2' (RInt (i' + d)%Z)); [apply HRgS'; exact HGE| |exact Logic.I].
+            rewrite EfS'. exact Hp2. }
+          destruct (back_edge_gen pins' kj (lbd + ls + 5) kc env2 sS aS gS Hj' ltac:(unfold fin, kd, kj, kp, ks in *; lia)
+                      ltac:(unfold fin, kd in *; lia) Hkj eq_refl HGS ltac:(rewrite Hlen2; cbn [lL length]; lia))
+            as (gN & RN & HGN & EfN).
+          eapply (post_seq pins sl bt ct fin B envL (frames g) aL gL (pop_scope env2) (set_ip aS kc) gN).
+          + eapply xrun_trans; [exact R0|]. eapply xrun_trans; [exact RB|]. eapply xrun_trans; [exact RE|].
+            eapply xrun_trans; [exact RS|exact RN].
+          + split; [rewrite Epop, ElL; reflexivity|rewrite Epop; discriminate].
+          + destruct HaB as (A1 & A2 & A3). repeat split; assumption.
+          + apply IH; [exact Epop|exact HGN| |reflexivity|].
+            * rewrite EfN. change (frames gS) with (frames gS'). rewrite EfS', HfE. exact HfB.
+            * cbn [set_ip aS aE upd set_ops a_ss]. rewrite Hlen2 in HssB. cbn [lL length] in *. lia.
+        - destruct Hsr as (g3x & Rf3 & Ho3). cbn [post fail_post]. exists (E_overflow OP_BIN_OP), g3x.
+          split; [eapply xrun_fail; [exact R0|]; eapply xrun_fail; [exact RB|]; eapply xrun_fail; [exact RE|exact Rf3]|].
+          split; [left; reflexivity|]. rewrite Ho3. exact (Rg_out _ _ _ HGE). }
+      assert (Hstepc : forall (e' : fenv) (s' : rstate) (bump : rvalue -> rstate -> sres_),
+                match step with
+                | None => bump (RInt 1) s'
+                | Some se0 => match eval (S fuel) e' se0 s' with
+                              | EVal sv s0 => bump sv s0 | ENoVal s0 => SFailed (FType 3) s0
+                              | EFail f s0 => SFailed f s0 | EFuel => SFuel end
+                end = match eval (S fuel) e' se s' with
+                      | EVal sv s0 => bump sv s0 | ENoVal s0 => SFailed (FType 3) s0
+                      | EFail f s0 => SFailed f s0 | EFuel => SFuel end).
+      { intros e' s' bump. unfold se. destruct step as [e|]; reflexivity. }
+      assert (Eg0 : frames g0 = {| lab := LWhile; vars := [] |} :: F2 :: R).
+      { unfold g0, push_frame. cbn [with_frames frames]. change (frames gct) with (frames gc). now rewrite Efc, EfL. }
+      destruct sig as [| | |rv].
+      - destruct H as (_ & aB & gB & RB & HipB & HRB & HaB & HfB). rewrite Eg0 in HfB. cbn [tl] in HfB. cbv zeta. rewrite Hstepc.
+        apply (Hnext aB gB RB HipB HRB HaB HfB).
+      - (* break *)
+        destruct H as (m & aB & gB & Esl & RB & HipB & HRB & HaB & HfB). inversion Esl; subst m.
+        rewrite Eg0 in HfB. cbn [skipn] in HfB.
+        rewrite popn_1 in HRB. destruct HRB as (HGB & HopsB & HssB).
+        destruct (Hexit aB gB (pop_scope env2) s2 Epop HGB HfB HipB HopsB ltac:(rewrite <- Epop; exact HssB))
+          as (a6 & g6 & R6 & Hip6 & HR6 & Ha6 & Hf6 & El6).
+        cbn [post]. split; [split; [rewrite El6, ElL; reflexivity|rewrite El6; discriminate]|].
+        split; [eapply bound_in_eq; [exact Hb|rewrite El6, El; reflexivity]|].
+        exists a6, g6. split; [eapply xrun_trans; [exact R0|]; eapply xrun_trans; eassumption|]. split; [exact Hip6|].
+        split; [exact HR6|]. split; [|rewrite Hf6; exact HR_tl].
+        destruct HaB as (A1 & A2 & A3), Ha6 as (B1 & B2 & B3).
+        repeat split; [rewrite B1, A1|rewrite B2, A2|rewrite B3, A3]; reflexivity.
+      - (* continue *)
+        destruct H as (m & aB & gB & Esl & RB & HipB & HRB & HaB & HfB). inversion Esl; subst m.
+        rewrite Eg0 in HfB. cbn [skipn] in HfB.
+        cbn [Nat.sub] in HRB. rewrite popn_0 in HRB. cbv zeta. rewrite Hstepc.
+        apply (Hnext aB gB RB HipB HRB HaB HfB).
+      - destruct H. }
+    (* ---- put the pieces together *)
+    eapply (post_seq pins sl bt ct fin B env (frames g) a g env1 a4 g4); [exact R4|exact Hd2|repeat split|].
+    apply Hloop; [exact El1|exact HG4|exact Ef4|exact Hip4|].
+    unfold lL, a4. cbn [length upd set_ip set_ops a_ss] in *. exact Hss.
+  Qed.
 
   (* ================================================================ all statements, all nesting depths *)
   Theorem stmt_sim : forall st, stmt_spec st.
